@@ -4917,7 +4917,7 @@ yyreduce:
           {
             case OBJECT_TYPE_INTEGER:
               (yyval.expression).type = EXPRESSION_TYPE_INTEGER;
-              (yyval.expression).value.integer = (yyvsp[0].expression).value.object->value.i;
+              (yyval.expression).value.integer = YR_UNDEFINED;  // not a compile-time constant
               break;
             case OBJECT_TYPE_FLOAT:
               (yyval.expression).type = EXPRESSION_TYPE_FLOAT;
